@@ -299,6 +299,8 @@ def _encode_groups(data, diff_cols):
         n_diff = len(diff_cols)
         if n_diff % 2 == 1:
             diff_data = np.column_stack([diff_data, np.zeros(n, dtype=np.float32)])
+        # Adding +0.0 maps -0.0 to +0.0 so that equal values share a bit pattern.
+        diff_data = diff_data + np.float32(0.0)
         packed = diff_data.view(np.int64)
         for j in range(packed.shape[1]):
             inv, uniques = pd.factorize(packed[:, j], sort=False)
